@@ -234,14 +234,17 @@ def _(ctx):
     x = fval(money, "Money").t
     src = money.payload("Money").field(1, "Rc<types::CurrencyInfo>").id
     n_ok = 0
+    ok_paths, err_paths = [], []
     for o in outs:
         if o.kind == "panic":
             ctx.reachable(ex, o.path, "convert_money can panic: " + o.msg)
             continue
         if is_err(o):
+            err_paths.append(o.path)
             continue
         variant, f = ok_payload(o)
         n_ok += 1
+        ok_paths.append(o.path)
         if variant != "Money":
             ctx.failures.append(("convert_money returns a %s token" % variant, {}, None))
             continue
@@ -255,6 +258,27 @@ def _(ctx):
             ctx.probe("convert_money", ex, [o], lambda o_: ok_payload(o_)[1][0].t, [(x, 6), (r_s, 4), (r_d, 10), (src != dst, True)])
         ctx.claim(ex, o.path, f[0].t == z3.If(r_s == 0, 0, x / r_s) * r_d, "convert_money is not amount / rate(A) * rate(B)", rp)
         ctx.claim(ex, o.path, z3.Implies(z3.And(src == dst, r_s != 0), f[0].t == x), "convert_money A -> A is not the identity", rp)
+    # a conversion may be declined only because something is missing: every lookup that some successful path relies on
+    # (currency by name or alias, the two rates) assumed present, no declining path may remain
+    def lookups(t, acc):
+        if z3.is_app(t) and t.decl().name().endswith(".has") and z3.is_bool(t):
+            acc[t.sexpr()] = t
+        for c in (t.children() if z3.is_app(t) else []):
+            lookups(c, acc)
+    found = {}
+    for pth in ok_paths:
+        for c in pth.pc:
+            lookups(c, found)
+    by_fn = {}
+    for t in found.values():
+        by_fn.setdefault(t.decl().name(), []).append(t)
+    # the currency is found by alias OR by code: one of the name lookups suffices; both rate lookups are needed
+    name_fns = [k for k, v in by_fn.items() if any(a.arg(0).sort() == z3.StringSort() for a in v)]
+    present = [z3.Or([t for k in name_fns for t in by_fn[k]])] if name_fns else []
+    present += [t for k, v in by_fn.items() if k not in name_fns for t in v]
+    for pth in err_paths:
+        ctx.reachable(ex, pth.add(z3.And(present)) if present else pth, "convert_money declines although the currency is known and both rates exist",
+                      ("m_replay_convert_money", [(z3.BoolVal(False), "bool"), (x, "f64"), (z3.RealVal(4), "f64"), (z3.RealVal(10), "f64"), (z3.BoolVal(False), "bool")]))
     if not n_ok:
         ctx.failures.append(("convert_money has no Ok path", {}, None))
 
@@ -1249,6 +1273,14 @@ def shape_code(shape):
 
 
 def check_shape(shape):
+    from engine_m import run_deep
+    try:
+        return run_deep(check_shape_body, shape)
+    except Exception as e:  # noqa: BLE001
+        return {"shape": shape, "wf": False, "status": "unsupported", "detail": ("%s: %s" % (type(e).__name__, e))[:300], "queries": 0, "paths": 0, "values": None, "t": 0.0}
+
+
+def check_shape_body(shape):
     """worker: returns (shape, well_formed, status, detail, n_paths, n_queries, solver_s, model)"""
     import time as _t
     ex = new_exec("real", feas_ms=2000)
@@ -1370,17 +1402,26 @@ WORDS = "n+-*/()tz"
 
 
 def check_shape_total(shape):
+    from engine_m import run_deep
+    try:
+        return run_deep(check_shape_total_body, shape)
+    except Exception as e:  # noqa: BLE001
+        return {"shape": shape, "wf": False, "status": "unsupported", "detail": ("%s: %s" % (type(e).__name__, e))[:300], "queries": 0, "paths": 0, "values": None, "t": 0.0}
+
+
+def check_shape_total_body(shape):
     """worker for the totality sweep with word tokens: panic paths and non-termination"""
     import time as _t
     ex = new_exec("real", feas_ms=2000)
     t0 = _t.time()
-    ex.deadline = t0 + 15
+    ex.clock = _t.process_time
+    ex.deadline = _t.process_time() + 20          # CPU seconds of this worker: independent of the machine's load
     res = {"shape": shape, "wf": False, "status": "pass", "detail": "", "paths": 0, "queries": 0, "values": None}
     nq = 0
     try:
         for o, xs in run_expression(ex, shape):
-            if _t.time() > ex.deadline:
-                raise Unsupported("block budget exceeded: the time budget of this shape (15 s) is exhausted")
+            if _t.process_time() > ex.deadline:
+                raise Unsupported("block budget exceeded: the time budget of this shape (20 CPU s) is exhausted")
             res["paths"] += 1
             if o.kind != "panic":
                 continue
@@ -1440,7 +1481,8 @@ def words_spec(ctx, max_len):
             vals = [f64_bytes(to_f64(v)) for v in (r["values"] or [])]
             enc = [[len(r["shape"])]] + [[WORDS.index(c)] for c in r["shape"]] + vals
             ctx.failures.append(("tokens %s: %s" % (" ".join(r["shape"]), r["detail"]), {"shape": r["shape"], "numbers": r["values"]}, ("m_replay_token_pipeline", enc)))
-    ctx.failures.sort(key=lambda f: len(f[1]["shape"]))
+    # structural evidence of a loop (block budget / recursion) before mere time-outs, short shapes first
+    ctx.failures.sort(key=lambda f: (1 if "time budget" in f[0] else 0, len(f[1]["shape"])))
     uns = [r for r in results if r["status"] == "unsupported"]
     if uns and not ctx.failures:
         raise Unsupported("%d shapes refused, e.g. %s: %s" % (len(uns), uns[0]["shape"], uns[0]["detail"]))
@@ -1832,7 +1874,15 @@ def program_is_defined(prog):
 
 
 def check_program(prog):
-    """worker: one straight-line program (tuple of statement indices)"""
+    """worker: one straight-line program (tuple of statement indices); runs on a deep stack and never raises"""
+    from engine_m import run_deep
+    try:
+        return run_deep(check_program_body, prog)
+    except Exception as e:  # noqa: BLE001  (a dying worker would leave the pool waiting forever)
+        return {"prog": prog, "status": "unsupported", "detail": ("%s: %s" % (type(e).__name__, e))[:300], "queries": 0, "paths": 0}
+
+
+def check_program_body(prog):
     import time as _t
     ex = new_exec("real", feas_ms=2000)
     t0 = _t.time()
@@ -1992,8 +2042,10 @@ def c03_spec(ctx, max_len):
     ctx.part.queries += sum(r["queries"] for r in run)
     ctx.part.sample = {"programs": len(run), "skipped_use_before_binding": len(results) - len(run), "statement_templates": [s[0] for s in c03_statements()]}
     uns = [r for r in run if r["status"] == "unsupported"]
-    if uns:
+    if uns and not any(r["status"] == "fail" for r in run):
         raise Unsupported("%d programs refused, e.g. %s: %s" % (len(uns), uns[0]["prog"], uns[0]["detail"]))
+    if uns:
+        ctx.unknown.append("%d programs refused, e.g. %s: %s" % (len(uns), uns[0]["prog"], uns[0]["detail"]))
     for r in run:
         if r["status"] == "unknown":
             ctx.unknown.append(r["detail"])
@@ -2004,9 +2056,33 @@ def c03_spec(ctx, max_len):
             ctx.failures.append((r["detail"], {"program": [c03_statements()[i][0] for i in r["prog"]], "constants": cs}, ("m_replay_program", enc)))
 
 
+def program_probe(ctx):
+    """translator validation for the program sweep: x = 2 / x = x + 3 / x + 4 evaluated in the encoding"""
+    ex = new_exec("real", feas_ms=2000)
+    lr = LineRunner(ex)
+    path = lr.initial_path()
+    cs = [ex.fsym("c%d" % i) for i in range(3)]
+    lines = [[("t", "x"), ("o", "="), ("n", cs[0])], [("t", "x"), ("o", "="), ("t", "x"), ("o", "+"), ("n", cs[1])], [("t", "x"), ("o", "+"), ("n", cs[2])]]
+    last = None
+    for toks in lines:
+        outs = [o for o in lr.run_line(toks, path) if o[0] == "value" and o[2] is not None]
+        if not outs:
+            return
+        _k, path, last = outs[0]
+    s_ = z3.Solver()
+    for c in ex.domain + ex.assumptions + list(path.pc):
+        s_.add(c)
+    for c, v in zip(cs, (2, 3, 4)):
+        s_.add(c.t == v)
+    if s_.check() == z3.sat:
+        from engine_m import to_f64, val_py
+        ctx.probes["program_x_rebound"] = to_f64(val_py(s_.model().eval(last.t, model_completion=True)))
+
+
 @spec("C03", "m_programs_3", "every straight-line program of <= 3 lines (plus: x, y and 'x y' bound, then any two statements) over the statement templates {name = c, name = name + c, use of name, line failing in the parser, line failing in the interpreter, y = x, x = 'x y' * c} with names x, y and the two-word name 'x y', through the REAL update_token_variables / token_generator / token_cleaner / missing_token_adder / AssignmentParser / interpreter (MIR): every line evaluates to the value given by the latest bindings for ALL real constants, the longest name wins, a binding holds a value (not a reference), a failing line changes nothing", tiers=("quick",))
 def _(ctx):
     c03_spec(ctx, 3)
+    program_probe(ctx)
 
 
 @spec("C03", "m_programs_4", "same for programs of <= 4 lines", tiers=("thorough",))
@@ -2115,6 +2191,14 @@ def c18_ops():
 
 
 def check_registration(seq):
+    from engine_m import run_deep
+    try:
+        return run_deep(check_registration_body, seq)
+    except Exception as e:  # noqa: BLE001
+        return {"seq": seq, "wf": False, "status": "unsupported", "detail": ("%s: %s" % (type(e).__name__, e))[:300], "queries": 0, "paths": 0, "values": None, "t": 0.0}
+
+
+def check_registration_body(seq):
     """worker: one sequence of registration calls on a calculator that knows language 'en' only; rule names are
     symbolic strings (they may coincide), so the solver decides over all names"""
     import time as _t
@@ -2223,6 +2307,16 @@ def check_registration(seq):
             if not paths:
                 res.update(status="fail", detail="no feasible outcome at step %d" % (step + 1))
                 return res
+        # the registered order when the three names are pairwise different (used by the translator-validation probe)
+        for p_, nr, _nt in paths:
+            s3 = z3.Solver()
+            for cc in ex.domain + ex.assumptions + list(p_.pc):
+                s3.add(cc)
+            s3.add(z3.Distinct(*names))
+            if s3.check() == z3.sat:
+                st_ = {k: [rules.index(models.deref(x.f[1])) for x in v.items] for k, v in p_.stores[(cfgv.path, cfields.index("rule"))].d.items()}
+                res["final_rules"] = st_.get("en")
+                break
     except Unsupported as e:
         res.update(status="unsupported", detail=str(e)[:300])
     return res
@@ -2257,6 +2351,10 @@ def c18_spec(ctx, max_len):
             eqs = r.get("name_eq") or [False, False, False]
             ctx.failures.append((r["detail"], {"sequence": [str(c18_ops()[i]) for i in r["seq"]], "names_equal(01,02,12)": eqs},
                                  ("k_replay_registration", [[len(r["seq"])]] + [[i] for i in r["seq"]] + [[1 if e else 0] for e in eqs])))
+    # translator validation: add r0, add r1, delete r0's name, add r0 again (language en) -> the encoded rule order
+    pr = check_registration((0, 2, 1, 0))
+    if pr.get("final_rules") is not None:
+        ctx.probes["registration_order"] = "S:" + ",".join("n%d" % i for i in pr["final_rules"])
 
 
 @spec("C18", "m_registration_4", "every sequence of <= 4 calls from {add_rule(lang in {en, unknown}, r0|r1|r2), delete_rule(lang, name of r0|r1|r2), add_dynamic_type(fam), add_dynamic_type_item(fam, 1|2)} on a calculator (MIR; the three rule names are symbolic strings that may coincide): return values and the resulting rule order / family tables equal a reference list model - add fails only for the unknown language, delete removes the FIRST rule of that name and fails only if none, duplicates are rejected without change", tiers=("quick",))
@@ -3259,3 +3357,409 @@ for _p in PROP_CODES:
         def _(ctx):
             wiring_spec(ctx, p_)
     _mk(_p)
+
+
+
+# ============================================================================ C06: a changed rate takes effect for exactly that currency
+@spec("C06", "m_update_currency", "SmartCalc::update_currency(name, rate) (MIR; the name a symbolic string, the rate table and the currency / alias tables symbolic): returns true exactly when the name is a configured currency code or alias (case-insensitively), and then the rate table differs from the old one at exactly that currency, where it holds the new rate; otherwise the table is untouched. Together with m_convert_money (decided for an arbitrary rate table) a changed rate takes effect for exactly that currency in every later conversion")
+def _(ctx):
+    ex = new_exec("real")
+    models.install_map_updates(ex)
+    cfields = struct_fields("src/config.rs", "SmartCalcConfig")
+    cfgv = SymV(ex, "config", "config::SmartCalcConfig")
+    calc = StructV("SmartCalc", [cfgv])
+    name = z3.String("currency_name")
+    ex.inputs["currency_name"] = name
+    r = ex.fsym("new_rate")
+    fn = [f for n, f in ex.fns.items() if _re.search(r"smartcalc::<impl at src/smartcalc\.rs[^>]*>::update_currency$", n)]
+    if len(fn) != 1:
+        raise Unsupported("update_currency not found")
+    ctx.part.functions += ["smartcalc::SmartCalc::update_currency", "tokinizer::tools::read_currency"]
+    outs = list(ex.run(fn[0], [RefV(calc), StrV(name), r], Path()))
+    ctx.paths += len(outs)
+    low = z3.Function("str.lower", z3.StringSort(), z3.StringSort())(name)
+    fld = lambda nm: cfgv.field(cfields.index(nm), "BTreeMap<alloc::string::String, Rc<types::CurrencyInfo>>")
+    has_a, val_a = models.get_map(ex, fld("currency_alias")).lookup(StrV(low))
+    has_c, val_c = models.get_map(ex, fld("currency")).lookup(StrV(low))
+    found = z3.Or(has_a, has_c)
+    which = z3.If(has_a, val_a.id, val_c.id)
+    rates = models.get_map(ex, cfgv.field(cfields.index("currency_rate"), "BTreeMap<Rc<types::CurrencyInfo>, f64>"))
+    n_true = n_false = 0
+    rp = ("k_replay_update_currency", [(z3.If(has_a, 1, z3.If(has_c, 0, 2)), "u8"), (r.t, "f64")])
+    for o in outs:
+        if o.kind == "panic":
+            ctx.reachable(ex, o.path, "update_currency can panic: " + o.msg, rp)
+            continue
+        ret = o.value if z3.is_expr(o.value) else z3.BoolVal(bool(o.value))
+        ov = o.path.stores.get((rates.path, "overrides")) or []
+        # any other store into the configuration is a change of the calculator beyond the rate table
+        other = [k for k in o.path.stores if k[0].startswith(cfgv.path) and k != (rates.path, "overrides")]
+        if other:
+            ctx.failures.append(("update_currency writes into the configuration outside the rate table: %s" % other[:3], {}, None))
+            continue
+        if ex.feasible(o.path, ret):
+            n_true += 1
+            ctx.claim(ex, o.path.add(ret), found, "update_currency reports success for a name that is neither a currency code nor an alias", rp)
+            if len(ov) != 1:
+                ctx.failures.append(("update_currency reports success with %d changes of the rate table" % len(ov), {}, None))
+                continue
+            key, val = ov[0]
+            ctx.claim(ex, o.path.add(ret), z3.And(key == which, val.t == r.t), "update_currency does not store the new rate under the currency the name denotes (alias first, then code)", rp)
+        if ex.feasible(o.path, z3.Not(ret)):
+            n_false += 1
+            ctx.claim(ex, o.path.add(z3.Not(ret)), z3.Not(found), "update_currency fails for a configured currency name", rp)
+            if ov:
+                ctx.failures.append(("update_currency reports failure but changes the rate table", {}, None))
+    if not n_true or not n_false:
+        ctx.failures.append(("update_currency: success and failure paths expected (%d, %d)" % (n_true, n_false), {}, None))
+
+
+
+# ============================================================================ C08 / C02 / C13: the number tokeniser's kernel on written literals
+NOTATIONS = {"k": 10 ** 3, "K": 10 ** 3, "M": 10 ** 6, "G": 10 ** 9, "T": 10 ** 12, "P": 10 ** 15, "Z": 10 ** 18, "Y": 10 ** 21}
+
+
+def number_literal_setup(ts, ds):
+    import re as _re4
+    ex = new_exec("real")
+    models.install_number_tokeniser(ex)
+
+    def h_add(ex_, name, args, path, depth, caller):
+        yield execmir_Outcome("return", path.event(("add_token_location", [models.deref(a) for a in args])), z3.Bool("token_added"))
+    ex.handlers.insert(0, (_re4.compile(r"^(tokinizer::)?Tokinizer::<'_>::add_token_location$|^Tokinizer::add_token_location$"), h_add))
+    ex.handlers.insert(0, (_re4.compile(r"^(tokinizer::)?Tokinizer::<'_>::add_uitoken_from_match$|^Tokinizer::add_uitoken_from_match$"), models.h_opaque))
+    cfields = struct_fields("src/config.rs", "SmartCalcConfig")
+    cfgv = SymV(ex, "config", "config::SmartCalcConfig")
+    tk = SymV(ex, "tokinizer", "tokinizer::Tokinizer")
+    st = {(cfgv.path, cfields.index("thousand_separator")): StrV(ts), (cfgv.path, cfields.index("decimal_seperator")): StrV(ds)}
+    return ex, cfgv, tk, Path(stores=st)
+
+
+def written_literal(sign, groups, frac, ts, ds, tag):
+    """the characters of a literal written in the convention (ts, ds): sign, digit groups joined by ts, ds + fraction"""
+    chars, digits = [], []
+    if sign:
+        chars.append(("c", sign))
+    k = 0
+    for gi, g in enumerate(groups):
+        if gi:
+            chars += [("c", ch) for ch in ts]
+        for _ in range(g):
+            d = z3.Int("%s_i%d" % (tag, k))
+            k += 1
+            digits.append(d)
+            chars.append(("d", d))
+    fr = []
+    if frac:
+        chars += [("c", ch) for ch in ds]
+        for j in range(frac):
+            d = z3.Int("%s_f%d" % (tag, j))
+            fr.append(d)
+            chars.append(("d", d))
+    return chars, digits, fr
+
+
+@spec("C08", "m_number_literal", "number_regex_parser (MIR; one regex match as input, its DECIMAL group a literal WRITTEN in the configured convention: optional sign, 1..3 digit groups joined by the thousands separator, optional decimal separator + 1..3 fraction digits, all digits symbolic; str::replace and f64 parsing modelled on the written text): under both separator conventions the regex admits ('.' decimal with ',' groups and ',' decimal with '.' groups) the token is the intended number, so rewriting a literal into the other convention under that configuration denotes the same value; a magnitude suffix k M G T P Z Y multiplies by the power of 1000, any other trailing letters by 1")
+def _(ctx):
+    number_literal_spec(ctx)
+
+
+@spec("C02", "m_number_literal", "same kernel registered for C02's clause on the magnitude suffixes k, M, G, T, P, Z, Y")
+def _(ctx):
+    number_literal_spec(ctx)
+
+
+LITERAL_PARSERS = {
+    # parser function -> (regex group with the written number, token variant, event that carries the token, index of the token argument)
+    "number_regex_parser": ("DECIMAL", "Number", "add_token_location", 3),
+    "percent_regex_parser": ("NUMBER", "Percent", "add_token_from_match", 2),
+    "money_regex_parser": ("PRICE", "Money", "add_token_location", 3),
+}
+
+
+def run_literal(parser, ts, ds, chars, radix_group=None):
+    """the parser on one regex match whose number group is the written text `chars`; returns (ex, outs, captures)"""
+    import re as _re4
+    ex = new_exec("real")
+    models.install_number_tokeniser(ex)
+    group = LITERAL_PARSERS[parser][0]
+
+    def h_add(ex_, name, args, path, depth, caller):
+        yield execmir_Outcome("return", path.event((name.split("::")[-1], [models.deref(a) for a in args])), z3.Bool("token_added"))
+    ex.handlers.insert(0, (_re4.compile(r"^(tokinizer::)?Tokinizer::(<'_>::)?(add_token_location|add_token_from_match)$"), h_add))
+    ex.handlers.insert(0, (_re4.compile(r"^(tokinizer::)?Tokinizer::(<'_>::)?add_uitoken_from_match$"), models.h_opaque))
+    cfields = struct_fields("src/config.rs", "SmartCalcConfig")
+    cfgv = SymV(ex, "config", "config::SmartCalcConfig")
+    tk = SymV(ex, "tokinizer", "tokinizer::Tokinizer")
+    st = {(cfgv.path, cfields.index("thousand_separator")): StrV(ts), (cfgv.path, cfields.index("decimal_seperator")): StrV(ds)}
+    orig = models.h_regex_captures_iter
+
+    def h_iter(ex_, name, args, path, depth, caller):
+        for o in orig(ex_, name, args, path, depth, caller):
+            cap = ex_._captures
+            if radix_group:
+                cap.preset = {radix_group: DecStrV(chars)}
+                for g_ in ("BINARY", "HEX", "OCTAL"):
+                    h_ = cap.group(g_)[0]
+                    ex_.assumptions.append(h_ if g_ == radix_group else z3.Not(h_))
+            else:
+                cap.preset = {group: DecStrV(chars)}
+                if parser == "number_regex_parser":
+                    for g_ in ("BINARY", "HEX", "OCTAL"):
+                        ex_.assumptions.append(z3.Not(cap.group(g_)[0]))
+                ex_.assumptions.append(cap.group(group)[0])
+            yield o
+    ex.handlers.insert(0, (_re.compile(r"^regex::Regex::captures_iter$"), h_iter))
+    outs = list(ex.run(find_fn(parser), [RefV(cfgv), RefV(tk), RefV(VecV([RegexV("literal")]))], Path(stores=st)))
+    return ex, outs, ex._captures
+
+
+def literal_token(o, parser):
+    _g, variant, evname, idx = LITERAL_PARSERS[parser]
+    evs = [e for e in o.path.events if e[0] == evname]
+    if len(evs) != 1:
+        return len(evs), None
+    tok = evs[0][1][idx]
+    tok = tok.f[0] if isinstance(tok, EnumV) and tok.variant == "Some" else None
+    return 1, tok if isinstance(tok, EnumV) and tok.variant == variant else ("wrong", tok)
+
+
+def literal_job(job):
+    """worker: one (parser, convention, written shape)"""
+    from engine_m import Ctx
+    import check as _check
+    parser, ts, ds, sign, groups, frac = job
+    ctx = Ctx(_check.Part("M", "worker", ""), "quick")
+    n_ok = 0
+    try:
+        chars, digits, fr = written_literal(sign, groups, frac, ts, ds, "lit")
+        ex, outs, cap = run_literal(parser, ts, ds, chars)
+        for d in digits + fr:
+            ex.domain.append(z3.And(d >= 0, d <= 9))
+        ctx.paths += len(outs)
+        intended = z3.IntVal(0)
+        for d in digits:
+            intended = intended * 10 + d
+        intended = z3.ToReal(intended)
+        for j_, d in enumerate(fr):
+            intended = intended + z3.ToReal(d) / (10 ** (j_ + 1))
+        if sign == "-":
+            intended = -intended
+        factor, note = z3.IntVal(1), z3.IntVal(0)
+        if parser != "percent_regex_parser":
+            hn, tn = cap.group("NOTATION")
+            for ni, (k_, f_) in enumerate(NOTATIONS.items()):
+                factor = z3.If(z3.And(hn, tn == z3.StringVal(k_)), z3.IntVal(f_), factor)
+                note = z3.If(z3.And(hn, tn == z3.StringVal(k_)), z3.IntVal(ni + 1), note)
+            note = z3.If(z3.And(hn, note == 0), z3.IntVal(9), note)
+        label = "%s%s%s under (thousands %r, decimal %r)" % (sign, ts.join("d" * g for g in groups), (ds + "d" * frac) if frac else "", ts, ds)
+        gs = list(groups) + [0] * (3 - len(groups))
+        rp = ("m_replay_number_literal", [(0 if ts == "," else 1, "u8"), ({"": 0, "-": 1, "+": 2}[sign], "u8"), (len(groups), "u8")] + [(g, "u8") for g in gs] + [(frac, "u8")]
+              + [(d, "u8") for d in digits] + [(d, "u8") for d in fr] + [(note, "u8"), (list(LITERAL_PARSERS).index(parser), "u8")])
+        seen_token = False
+        for o in outs:
+            if o.kind == "panic":
+                ctx.reachable(ex, o.path, "%s can panic on the literal %s: %s" % (parser, label, o.msg), rp)
+                continue
+            n_ev, tok = literal_token(o, parser)
+            if n_ev == 0 and parser == "money_regex_parser":
+                continue      # unknown currency name: the match is skipped (decided by the currency tables, not by the number)
+            if n_ev != 1 or not isinstance(tok, EnumV):
+                if ex.feasible(o.path):
+                    ctx.failures.append(("the literal %s (%s) does not produce exactly one %s token" % (label, parser, LITERAL_PARSERS[parser][1]), {}, None))
+                continue
+            seen_token = True
+            if ctx.claim(ex, o.path, tok.f[0].t == intended * z3.ToReal(factor), "the literal %s (%s) does not denote the number written (times the power of 1000 of its suffix)" % (label, parser), rp) == "unsat":
+                n_ok += 1
+        if not seen_token and not ctx.failures:
+            ctx.failures.append(("the literal %s: %s produced no token" % (label, parser), {}, None))
+    except Unsupported as e:
+        return {"unsupported": str(e)[:300]}
+    except Exception as e:  # noqa: BLE001
+        return {"unsupported": "%s: %s" % (type(e).__name__, str(e)[:300])}
+    return {"failures": ctx.failures, "unknown": ctx.unknown, "paths": ctx.paths, "queries": ctx.part.queries, "solver_s": ctx.part.solver_s, "ok": n_ok}
+
+
+def number_literal_spec(ctx, parsers=("number_regex_parser",)):
+    import itertools
+    import multiprocessing as mp
+    from engine_m import mir as _mir
+    _mir()
+    jobs = []
+    for parser in parsers:
+        ctx.part.functions.append("tokinizer::regex_tokinizer::" + parser)
+        shapes = list(itertools.product(("", "-", "+"), ((1,), (3,), (1, 3), (2, 3, 3)), (0, 1, 3)))
+        if parser != "number_regex_parser":
+            shapes = [sh for sh in shapes if sh[1] in ((1,), (1, 3), (2, 3, 3)) and sh[0] in ("", "-")]
+        for (ts, ds) in ((",", "."), (".", ",")):
+            jobs += [(parser, ts, ds) + sh for sh in shapes]
+    with mp.Pool(min(16, mp.cpu_count())) as pool:
+        results = pool.map(literal_job, jobs, chunksize=2)
+    n_ok = 0
+    uns = [r["unsupported"] for r in results if "unsupported" in r]
+    for r in results:
+        if "unsupported" in r:
+            continue
+        ctx.failures += r["failures"]
+        ctx.unknown += r["unknown"]
+        ctx.paths += r["paths"]
+        ctx.part.queries += r["queries"]
+        ctx.part.solver_s += r["solver_s"]
+        n_ok += r["ok"]
+    ctx.part.sample = {"written_shapes": len(jobs), "conventions": ["',' groups '.' decimal", "'.' groups ',' decimal"]}
+    if "number_regex_parser" in parsers:
+        # translator validation: the encoding at the concrete literal -12.345,67 (',' decimal), suffix k
+        text = "-12.345,67"
+        chars = [("d", z3.IntVal(int(c))) if c.isdigit() else ("c", c) for c in text]
+        ex, outs, cap = run_literal("number_regex_parser", ".", ",", chars)
+        hn, tn = cap.group("NOTATION")
+        ctx.probe("number_literal", ex, outs, lambda o: literal_token(o, "number_regex_parser")[1].f[0].t, [(hn, True), (tn, z3.StringVal("k"))])
+    if uns and not ctx.failures:
+        raise Unsupported("; ".join(uns[:3]))
+    if not n_ok and not ctx.failures:
+        ctx.failures.append(("number literal kernel: nothing decided", {}, None))
+
+
+@spec("C08", "m_percent_money_literals", "the same reading kernel in percent_regex_parser (NUMBER group) and money_regex_parser (PRICE group with suffix; the currency name resolved through the symbolic currency tables): a literal written in the configured convention denotes the intended amount under both conventions")
+def _(ctx):
+    number_literal_spec(ctx, ("percent_regex_parser", "money_regex_parser"))
+
+
+def literal_totality(ctx):
+    """no panic of the three literal parsers on ANY text their regexes admit (digit groups joined by ',' or '.' in any
+    mixture, not necessarily the configured convention), and of the radix branch on up to 17 digits"""
+    import itertools
+    n = 0
+    for parser in LITERAL_PARSERS:
+        ctx.part.functions.append("tokinizer::regex_tokinizer::" + parser)
+        for (ts, ds) in ((",", "."), (".", ",")):
+            for seps in [()] + [c for k in (1, 2, 3) for c in itertools.product(",.", repeat=k)]:
+                chars, digits = [], []
+                for gi in range(len(seps) + 1):
+                    if gi:
+                        chars.append(("c", seps[gi - 1]))
+                    d = z3.Int("t_%d" % gi)
+                    digits.append(d)
+                    chars.append(("d", d))
+                ex, outs, cap = run_literal(parser, ts, ds, chars)
+                for d in digits:
+                    ex.domain.append(z3.And(d >= 0, d <= 9))
+                ctx.paths += len(outs)
+                written = "d" + "".join(sp + "d" for sp in seps)
+                rp = ("m_replay_literal_text", [(list(LITERAL_PARSERS).index(parser), "u8"), (0 if ts == "," else 1, "u8"), (len(seps), "u8")] + [(0 if sp == "," else 1, "u8") for sp in seps] + [(d, "u8") for d in digits])
+                for o in outs:
+                    ctx.part.queries += 1
+                    n += 1
+                    if o.kind == "panic":
+                        ctx.reachable(ex, o.path, "%s panics on the text %s (admitted by its regex) under (thousands %r, decimal %r): %s" % (parser, written, ts, ds, o.msg), rp)
+    # radix literals: 0x / 0o / 0b followed by up to 17 / 23 / 65 digits
+    ctx.part.functions.append("tokinizer::regex_tokinizer::number_regex_parser (radix branches)")
+    for grp, radix, lens in (("HEX", 16, (1, 8, 15, 16, 17)), ("OCTAL", 8, (1, 21, 22)), ("BINARY", 2, (1, 63, 64))):
+        for ln in lens:
+            digits = [z3.Int("r_%d" % i) for i in range(ln)]
+            chars = [("d", d) for d in digits]
+            ex, outs, cap = run_literal("number_regex_parser", ",", ".", chars, radix_group=grp)
+            for d in digits:
+                ex.domain.append(z3.And(d >= 0, d < radix))
+            ctx.paths += len(outs)
+            rp = ("m_replay_radix_literal", [(radix, "u8"), (ln, "u8")] + [(d, "u8") for d in digits])
+            val = z3.IntVal(0)
+            for d in digits:
+                val = val * radix + d
+            for o in outs:
+                ctx.part.queries += 1
+                n += 1
+                if o.kind == "panic":
+                    ctx.reachable(ex, o.path, "number_regex_parser panics on a base-%d literal of %d digits: %s" % (radix, ln, o.msg), rp)
+                    continue
+                n_ev, tok = literal_token(o, "number_regex_parser")
+                if n_ev == 1 and isinstance(tok, EnumV):
+                    ctx.claim(ex, o.path, tok.f[0].t == z3.ToReal(val), "a base-%d literal of %d digits does not denote the integer written" % (radix, ln), rp)
+    if not n:
+        ctx.failures.append(("literal totality: nothing explored", {}, None))
+
+
+@spec("C01", "m_literal_parsers_total", "number / percent / money tokenisers (MIR; one regex match as input) on EVERY text their number group can match - up to four digit runs joined by ',' or '.' in any mixture, under both separator conventions - and on base-16 / 8 / 2 literals of up to 17 / 22 / 64 digits: no panic (an unparsable text is skipped), and a radix literal denotes the integer written")
+def _(ctx):
+    literal_totality(ctx)
+
+
+@spec("C13", "m_radix_literals", "the radix branches of number_regex_parser registered for C13: 0x / 0o / 0b literals denote the integer written in base 16 / 8 / 2, up to the largest the calculator accepts; no panic on longer ones")
+def _(ctx):
+    literal_totality(ctx)
+
+
+
+# ============================================================================ C08: the computation never reads the separator settings
+@spec("C08", "m_separators_not_read", "every rule function of config.json's rule table (under its pattern preconditions) and DataItem::calculate of every item kind against every item kind and operator (MIR, all paths): the two separator settings of the configuration are never read - the symbolic configuration object never materialises them - so the computed value cannot depend on them (dynamic_type_convert re-enters the reader and is decided by engine D under both conventions instead)")
+def _(ctx):
+    cfields = struct_fields("src/config.rs", "SmartCalcConfig")
+    sep_idx = {cfields.index("decimal_seperator"), cfields.index("thousand_separator")}
+
+    def reads_separators(ex):
+        hit = []
+        for k in ex.inputs:
+            m = _re.match(r"^config\.(\d+)(\b|$)", k)
+            if m and int(m.group(1)) in sep_idx:
+                hit.append(k)
+        return hit
+    names = rule_function_names()
+    from engine_m import mir as _mir
+    cfg = _mir()["config"]
+    rule_names = sorted({f for l in cfg["languages"].values() for f in l["rules"]})
+    n = 0
+    skipped = []
+    for fname in rule_names:
+        if fname == "dynamic_type_convert":
+            skipped.append(fname)
+            continue
+        try:
+            ex, fields, toks, args, cfgv, tkv = setup_rule(fname, "real")
+            fields.keys_order = sorted(fields.closed)
+            outs, _ = run_fn(ex, names.get(fname, fname), args)
+        except Unsupported as e:
+            if "not found in the MIR dump" in str(e):
+                outs, _ = run_fn(ex, fname, args)
+            else:
+                raise
+        ctx.paths += len(outs)
+        ctx.part.queries += 1
+        ctx.part.functions.append("rule " + fname)
+        n += 1
+        hit = reads_separators(ex)
+        if hit:
+            ctx.failures.append(("the rule function %s reads the separator settings (%s): the computed value can depend on how numbers are written" % (fname, hit[:2]), {}, None))
+    fresh = [0]
+
+    def h_any_int(ex_, name, args, path, depth, caller):
+        # calendar fields of a date: any value (only the configuration reads matter here)
+        fresh[0] += 1
+        t = z3.Int("calendar%d" % fresh[0])
+        yield execmir_Outcome("return", path, IntV(t, 32, "year" in name))
+
+    def h_any_date(ex_, name, args, path, depth, caller):
+        fresh[0] += 1
+        yield execmir_Outcome("return", path, DateV(z3.Int("date%d" % fresh[0])))
+    for kind in models.ITEM_KINDS:
+        for op in OPS:
+            ex = new_exec("real")
+            ex.handlers.insert(0, (_re.compile(r"^<(chrono::)?NaiveDate as Datelike>::(year|month|day)$"), h_any_int))
+            ex.handlers.insert(0, (_re.compile(r"^(chrono::)?NaiveDate::from_ymd$"), h_any_date))
+            cfgv, item, other, me = calc_setup(ex, kind, list(models.ITEM_KINDS))
+            try:
+                outs = run_calc(ex, kind, item, cfgv, other, op)
+            except Unsupported as e:
+                if kind == "DynamicTypeItem":
+                    skipped.append("DynamicTypeItem::calculate %s (%s)" % (op, str(e)[:60]))
+                    continue
+                raise
+            ctx.paths += len(outs)
+            ctx.part.queries += 1
+            n += 1
+            hit = reads_separators(ex)
+            if hit:
+                ctx.failures.append(("%s::calculate (%s) reads the separator settings (%s)" % (kind, op, hit[:2]), {}, None))
+        ctx.part.functions.append("compiler::%s::calculate" % models.ITEM_MODULE[kind])
+    ctx.part.sample = {"decided": n, "left_to_engine_D": skipped}
+    if not n:
+        ctx.failures.append(("nothing was executed", {}, None))
